@@ -1300,7 +1300,7 @@ class Interp:
                 return [(s, self.length_of(v))]
             return [(s, self.size_of(at))]
         # ---- iterator adaptors whose work is a closure
-        if krate == "core" and name == "map" and len(args) == 2 and isinstance(args[1], tuple) and args[1] and args[1][0] == "closure" and "iter" in dj.get("n", "").lower():
+        if krate == "core" and name in ("map", "flat_map") and len(args) == 2 and isinstance(args[1], tuple) and args[1] and args[1][0] == "closure" and "iter" in dj.get("n", "").lower():
             return [(s, ("mapiter", self.load_ref(s, args[0]), args[1]))]
         if krate == "core" and name == "collect" and len(args) == 1 and isinstance(args[0], tuple) and args[0] and args[0][0] == "mapiter":
             return self.closure_loop(frame, s, e, args[0][1], args[0][2], "collect")
